@@ -37,7 +37,7 @@ def selftest():
 def cases(ctx):
     r = ctx.rnd
     t = ctx.tier == "thorough"
-    for i in range(100 if t else 12):
+    for i in range(250 if t else 12):
         fam = ["p2pk", "p2pkh", "multisig", "multisig"][i % 4] if i < 8 else r.choice(["p2pk", "p2pkh", "multisig", "multisig"])
         ni = r.choice([1, 2, 3, 4])
         no = r.choice([1, 2, 3, 4])
